@@ -42,7 +42,8 @@ LEVEL_NOTE = ("Trusted: Coq kernel, extraction, translator harness/translate/c01
 MODEL = ("Model.C01_visitor", "run_C01")
 COQ_TARGETS = ["Proofs/C01_visitor.vo", "Proofs/C01_vis.vo"]
 RULE = ("seeded random structural modules (nesting <=4; name pool of 11 (incl. _t__, z__) with forced duplicates; decorators from the label tables, overload, "
-        "accessor, unknown; docstrings in every legal position incl. attribute docstrings, after if/for/try bodies; conditional placement in "
+        "accessor, unknown; docstrings in every legal position incl. attribute docstrings, after if/for/try bodies, also parenthesised over several lines, "
+        "concatenated across lines or followed by a comment line; conditional placement in "
         "if/elif/else, TYPE_CHECKING (plain, typing., negated, nested), try/except/else/finally, for/while/else, with, match; __init__ "
         "instance attributes incl. conditional, annotated, dotted, tuple; __all__ forms incl. +=, concatenation, empty, annotated; imports: "
         "plain, dotted, as, from, star, relative, self-referencing; module or package __init__ file). A second grammar-based stream of "
